@@ -15,6 +15,7 @@ the end.
 
 from __future__ import annotations
 
+import hashlib
 import json
 
 from harness.adapters import archive as ad
@@ -85,23 +86,17 @@ def _detail(ev: dict, pre: dict) -> str:
             f"n={ev['n']}) : {json.dumps(short(pre))} -> {json.dumps(short(ev['post']))}")[:1500]
 
 
-def _behaviours(ctx: Ctx) -> list[dict]:
-    behs = ctx.behaviours("MC_Archive", "MC_Archive.cfg")
-    ctx.notes["behaviours_exhaustive_quick_cfg"] = len(behs)
+def _batches(ctx: Ctx):
+    """Yield (name, behaviours): exhaustive MC_Archive configurations, then random long ones."""
+    cfgs = ["MC_Archive.cfg"]
     if not ctx.quick:
-        for cfg in ("MC_Archive_t_cov3.cfg", "MC_Archive_t_cov2.cfg", "MC_Archive_t_mio3.cfg",
-                    "MC_Archive_t_mio2.cfg", "MC_Archive_t_pop3.cfg"):
-            more = ctx.behaviours("MC_Archive", cfg)
-            ctx.notes[f"behaviours_{cfg[11:-4]}"] = len(more)
-            behs += more
-    n_exh = len(behs)
-    sims = ctx.simulate("MC_Archive", "MC_Archive_sim.cfg", num=250 if ctx.quick else 4000, depth=9)
-    for k, st in enumerate(sims):
-        if st.get("hist"):
-            behs.append({"init": st["init0"], "hist": st["hist"], "seed": ctx.seed + k})
-    ctx.notes["behaviours_exhaustive"] = n_exh
-    ctx.notes["behaviours_simulated"] = len(behs) - n_exh
-    return behs
+        cfgs += ["MC_Archive_t_cov3.cfg", "MC_Archive_t_cov2.cfg", "MC_Archive_t_mio3.cfg",
+                 "MC_Archive_t_mio2.cfg", "MC_Archive_t_pop3.cfg"]
+    for cfg in cfgs:
+        yield cfg[:-4], ctx.behaviours("MC_Archive", cfg)
+    sims = ctx.simulate("MC_Archive", "MC_Archive_sim.cfg", num=250 if ctx.quick else 2000, depth=9)
+    yield "simulated", [{"init": st["init0"], "hist": st["hist"], "seed": ctx.seed + k}
+                        for k, st in enumerate(sims) if st.get("hist")]
 
 
 def _p1_jobs(ctx: Ctx) -> list[dict]:
@@ -161,23 +156,27 @@ def run(ctx: Ctx) -> None:
                                  f"expected to violate ArchivedCovers, got {names}")
         ctx.notes["design_with_rounding_h_violates"] = sorted(names)
 
-    behs = _behaviours(ctx)
     ctx.exhaustive = True
-    traces = parallel_map(ad.replay, behs, chunksize=64)
-    ctx.evaluations = sum(len(t["ev"]) - 1 for t in traces)
-    for t in traces:
-        evs = t["ev"]
-        for k in range(1, len(evs)):
-            e, pre = evs[k], evs[k - 1]["post"]
-            if e["sols"] or e["post"] != pre:
-                ctx.nontriv(json.dumps([e["mode"], e["op"], pre, e["sols"], e["gs"], e["n"]],
-                                       sort_keys=True))
-            if e["exc"]:
-                ctx.drift.append(f"P2: {CLS[e['mode']]}.{METHOD[e['op']]} raised {e['exc']}: "
-                                 f"{_detail(e, pre)[:300]}")
-    _judge(ctx, traces, behs, "P2")
-    for t in (traces[0], traces[len(traces) // 3], traces[(2 * len(traces)) // 3], traces[-1]):
-        ctx.sample(t["ev"][-1])
+    counts = {}
+    for name, behs in _batches(ctx):
+        counts[name] = len(behs)
+        traces = parallel_map(ad.replay, behs, chunksize=64)
+        ctx.evaluations += sum(len(t["ev"]) - 1 for t in traces)
+        for t in traces:
+            evs = t["ev"]
+            for k in range(1, len(evs)):
+                e, pre = evs[k], evs[k - 1]["post"]
+                if e["sols"] or e["post"] != pre:
+                    ctx.nontriv(hashlib.sha1(json.dumps(
+                        [e["mode"], e["op"], pre, e["sols"], e["gs"], e["n"]],
+                        sort_keys=True).encode()).hexdigest()[:16])
+                if e["exc"]:
+                    ctx.drift.append(f"P2: {CLS[e['mode']]}.{METHOD[e['op']]} raised {e['exc']}: "
+                                     f"{_detail(e, pre)[:300]}")
+        _judge(ctx, traces, behs, "P2")
+        ctx.sample(traces[len(traces) // 2]["ev"][-1])
+        del traces, behs
+    ctx.notes["behaviours"] = counts
 
     if not ctx.quick:
         jobs = _p1_jobs(ctx)
